@@ -40,7 +40,7 @@ def _wait_or_wedge(self):
     return self._result == bsi.BlockSendResult.SENT_OK
 
 
-def cut_then_close(hb: bytes, body: bytes, j: int, selected: bool, local: bool) -> bool:
+def cut_then_close(hb: bytes, body: bytes, j: int, selected: bool, local: bool, linktest_running: bool) -> bool:
     """
     pre: len(hb) == 10 and hb[5] <= 9 and hb[5] != 8
     pre: len(body) <= 2
@@ -55,8 +55,13 @@ def cut_then_close(hb: bytes, body: bytes, j: int, selected: bool, local: bool) 
     p, c, delivered = rig.make_protocol()
     rig.set_state(p, 2 if selected else 1)
     st = _instrument(p)
-    hp.threading = rig.FakeThreading()
+    ft = rig.FakeThreading()
+    hp.threading = ft
     bsi.BlockSendInfo.wait = _wait_or_wedge
+    # the connected state owns its linktest timer; its callback may be in the middle of a Linktest transaction (waiting for T6)
+    p._linktest_timer = ft.Timer(30, p._on_linktest_timer)
+    p._linktest_timer.start()
+    p._linktest_timer.running = linktest_running
     if j > 0:
         p._on_connection_data_received({"source": c, "data": frame[:j]})
     try:
@@ -64,8 +69,8 @@ def cut_then_close(hb: bytes, body: bytes, j: int, selected: bool, local: bool) 
         p._on_disconnecting({"source": c})
         c._disconnecting = False
         p._on_disconnected({"source": c})
-    except (Wedge, Park):
-        return False                                      # disconnect handling would never finish
+    except (Wedge, Park, rig.TimerBusy):
+        return False                                      # disconnect handling would never finish (or only after T6)
     if p.connection_state.current != ConnectionState.NOT_CONNECTED or len(p._receive_buffer) != 0:
         return False
     # next connection: no stale bytes, select works again
@@ -133,7 +138,7 @@ OBLIGATIONS = [
          functions=["Protocol._on_connection_data_received", "HsmsProtocol._process_received_data/_on_disconnecting/_on_disconnected/"
                     "_on_connected/send_separate_req", "Protocol.send_message", "BlockSendInfo.wait", "ByteQueue"],
          bounds="arbitrary frame header, body <= 2 bytes, cut at every offset j of the frame (0 = between frames), NOT_SELECTED / "
-                "SELECTED, then the close sequence of the connection, then a new connection with a Select.req",
+                "SELECTED, linktest timer idle or in the middle of its callback, then the close sequence of the connection, then a new connection with a Select.req",
          outside="TcpServerConnection/TcpClientConnection enable()/disable() stop-flag handshakes and TcpConnection.disconnect busy "
                  "waits (spin protocols around real sockets/select/sleep: not encodable, NOT claimed)"),
     dict(name="real_threads", fn="real_threads", kind="native", timeout=600,
